@@ -124,7 +124,8 @@ func (g *Gen) body(n int) []byte {
 
 var h264Types = []byte{1, 1, 1, 1, 5, 5, 6, 7, 8, 9, 10, 11, 2, 3, 4, 13, 14, 15, 19, 20, 23, 16}
 
-// Nal264 returns a NAL unit (F=0, NRI random, type 1..23 without filler unless filler=true)
+// Nal264 returns a NAL unit (NRI random, type 1..23 without filler unless filler=true; the F bit
+// — forbidden_zero_bit, set by a sender or middlebox to flag a damaged unit, RFC 6184 5.3 — in 4 %)
 func (g *Gen) Nal264(filler bool) ([]byte, string) {
 	t := h264Types[g.R.Intn(len(h264Types))]
 	if filler {
@@ -132,12 +133,16 @@ func (g *Gen) Nal264(filler bool) ([]byte, string) {
 	}
 	n, cls := g.size()
 	hdr := byte(g.R.Intn(4))<<5 | t
+	if g.R.Chance(4) {
+		hdr |= 0x80
+		g.Count("unit-f-bit-set")
+	}
 	return append([]byte{hdr}, g.body(n)...), cls
 }
 
 var h265Types = []byte{0, 1, 1, 1, 19, 20, 21, 16, 32, 33, 34, 35, 36, 37, 39, 40, 9, 8, 47, 22, 41}
 
-// Nal265 returns a NAL unit with a 2-byte header (F=0, LayerId, TID≥1)
+// Nal265 returns a NAL unit with a 2-byte header (F in 3 %, LayerId, TID≥1)
 func (g *Gen) Nal265() ([]byte, string) {
 	t := h265Types[g.R.Intn(len(h265Types))]
 	n, cls := g.size()
@@ -146,6 +151,10 @@ func (g *Gen) Nal265() ([]byte, string) {
 		layer = byte(g.R.Intn(64))
 	}
 	h0 := t<<1 | layer>>5
+	if g.R.Chance(3) {
+		h0 |= 0x80
+		g.Count("unit-f-bit-set")
+	}
 	h1 := layer<<3 | byte(1+g.R.Intn(7))
 	return append([]byte{h0, h1}, g.body(n)...), cls
 }
